@@ -24,6 +24,7 @@ has interior (LP margin), border = Girard area of the cone from its extreme rays
 """
 from __future__ import annotations
 
+import hashlib
 import json
 import math
 import os
@@ -32,6 +33,12 @@ from fractions import Fraction
 import numpy as np
 
 import core
+
+try:    # the per-pair geometry is thousands of tiny matrix products: BLAS threads only add contention (and the pool uses 16 processes)
+    from threadpoolctl import threadpool_limits
+    threadpool_limits(1)
+except Exception:      # noqa: BLE001
+    pass
 
 RULE = ("grid: cube4D and randomQ, quick N in {4..12,17}, thorough every N in 4..60 and {80,120,200,272}; custom: random "
         "double covers (uniform / equatorial band / cap / permuted library grid), N in 4..14 (thorough ..40), seeds from "
@@ -46,6 +53,7 @@ T_ADJ = 1e-6          # LP margin above which a common face certainly exists
 T_NON = 1e-9          # LP margin below which it certainly does not (observed: >= 1.2e-3 or <= 0)
 AREA_TOL = 2e-3       # the implementation rounds cosines to 7 decimals before arccos (DESIGN 5.4)
 DIST_TOL = 1e-9
+HYP_MODEL_MAX_N = 60   # the Lean validators are cubic in 2N (list indexing)
 AREA_MODEL_TOL = 1e-5   # Float model of the area code vs the implementation
 BORDER_SYM_TOL = 1e-5  # the two congruent faces behind B[i,j] and B[j,i] are measured separately (7-decimal rounding)
 
@@ -236,17 +244,42 @@ def observe(case, with_geo=True):
         N = n2 // 2
         out = {"P": P, "N": N, "half": {}, "full": {}, "coo": {}, "flags": {}}
         fv = _full_voronoi(obj, P)
+        # record the full-sphere matrix the fold consumes (harness-side wrapper on the instance; the matrix is recomputed
+        # directly when the getter did not go through it)
+        rec = {}
+        orig = fv._calculate_N_N_array
+
+        def _recording(sel_property="adjacency", **kw):
+            try:
+                r = orig(sel_property=sel_property, **kw)
+            except Exception as e:      # noqa: BLE001
+                rec[sel_property] = {"err": core.errname(e)}
+                raise
+            rec[sel_property] = np.array(r.toarray())
+            return r
+        try:
+            fv._calculate_N_N_array = _recording
+        except Exception:      # noqa: BLE001
+            pass
         for sel in SELS:
+            rec.pop(sel, None)
             try:
                 H = getattr(obj, GETTER[sel])()
                 out["half"][sel] = np.array(H.toarray())
                 out["coo"][sel] = (np.array(H.row, dtype=int).tolist(), np.array(H.col, dtype=int).tolist())
             except Exception as e:      # noqa: BLE001
                 out["half"][sel] = {"err": core.errname(e)}
-            try:
-                out["full"][sel] = np.array(fv._calculate_N_N_array(sel_property=sel).toarray())
-            except Exception as e:      # noqa: BLE001
-                out["full"][sel] = {"err": core.errname(e)}
+            if sel in rec:
+                out["full"][sel] = rec[sel]
+            else:
+                try:
+                    out["full"][sel] = np.array(orig(sel_property=sel).toarray())
+                except Exception as e:      # noqa: BLE001
+                    out["full"][sel] = {"err": core.errname(e)}
+        try:
+            del fv._calculate_N_N_array
+        except Exception:      # noqa: BLE001
+            pass
         if N <= 40:
             for sel in ("adjacency", "center_distances"):
                 for ou, io in ((False, True), (True, False), (False, False)):
@@ -265,6 +298,8 @@ def observe(case, with_geo=True):
             out["rr"] = [list(map(int, r)) for r in fv.get_all_voronoi_regions(reduced=True)]
         except Exception as e:      # noqa: BLE001
             out["rv"] = None
+        if isinstance(out["full"]["border_len"], dict) or isinstance(out["half"]["border_len"], dict):
+            out["border_diag"] = _diagnose_borders(fv, out)
         out["area_in"] = _area_inputs(out)
         # sign fold of the angle on a few pairs (real functions; arccos is the external call)
         from molgri.space.utils import angle_between_vectors, distance_between_quaternions
@@ -279,18 +314,46 @@ def observe(case, with_geo=True):
     return out
 
 
+def _diagnose_borders(fv, out):
+    """the border getter raised: which pairs of cells of the full-sphere diagram make `_calculate_borders` raise"""
+    Fa = out["full"].get("adjacency")
+    if isinstance(Fa, dict) or Fa is None:
+        return None
+    bad, vals = [], {}
+    for a, b in np.argwhere(np.triu(np.asarray(Fa) != 0, 1)):
+        a, b = int(a), int(b)
+        try:
+            vals[(a, b)] = float(fv._calculate_borders(a, b))
+        except Exception as e:      # noqa: BLE001
+            bad.append((a, b, core.errname(e), str(e)[:80]))
+    return {"bad": bad, "vals": vals}
+
+
 def _area_inputs(out):
     """inputs of the Float model of the area code: the SVD-projected shared vertices of adjacent cells of the full-sphere
-    diagram, obtained with the same external calls as `_calculate_borders` (set intersection order, scipy.linalg.svd)"""
+    diagram, obtained with the same external calls as `_calculate_borders` (set intersection order, scipy.linalg.svd).
+    When the border getter raised, the per-pair outcomes of `_calculate_borders` are used instead of the matrix."""
     from scipy.linalg import svd
     F = out["full"].get("border_len")
-    if out.get("rv") is None or isinstance(F, dict):
+    if out.get("rv") is None:
         return []
     rv, rr = out["rv"], out["rr"]
-    prs = [(int(a), int(b)) for a, b in np.argwhere(np.triu(np.asarray(F) != 0, 1))]
+    if isinstance(F, dict):
+        diag = out.get("border_diag")
+        if not diag:
+            return []
+        val = dict(diag["vals"])
+        for a, b, en, _ in diag["bad"]:
+            val[(a, b)] = {"err": en}
+        prs = sorted(val)
+        must = [(a, b) for a, b, _, _ in diag["bad"]]
+    else:
+        prs = [(int(a), int(b)) for a, b in np.argwhere(np.triu(np.asarray(F) != 0, 1))]
+        val = {(a, b): float(F[a, b]) for a, b in prs}
+        must = []
     if len(prs) > 160:
         sel = np.random.default_rng(4).choice(len(prs), size=160, replace=False)
-        prs = [prs[k] for k in sorted(sel)]
+        prs = sorted(set(prs[k] for k in sel) | set(must))
     res = []
     for a, b in prs:
         idx = list(set(rr[a]).intersection(set(rr[b])))
@@ -300,7 +363,7 @@ def _area_inputs(out):
             pts = np.dot(shared, vh.T)[:, :-1]
         except Exception:      # noqa: BLE001
             continue
-        res.append((a, b, [[core.fbits(x) for x in r] for r in pts], float(F[a, b])))
+        res.append((a, b, [[core.fbits(x) for x in r] for r in pts], val[(a, b)], int(np.linalg.matrix_rank(shared))))
     return res
 
 
@@ -427,8 +490,10 @@ def model_ops(case, out):
             ops.append({"op": "half", "grid": grid, "A": _sparse(F), "guard": "len", "include_opp": io, "only_upper": ou})
     for a, b, th, d in out["qd"]:
         ops.append({"op": "quatdist", "pi": core.rat(math.pi), "theta": core.rat(th)})
-    for a, b, pts, val in out["area_in"]:
-        ops.append({"op": "area", "pts": pts})
+    for a, b, pts, val, rank in out["area_in"]:
+        ops.append({"op": "area", "pts": pts, "rank": rank})
+    if out["N"] <= HYP_MODEL_MAX_N and not isinstance(out["full"]["adjacency"], dict):
+        ops.append({"op": "hyp", "grid": grid, "A": _sparse(out["full"]["adjacency"])})
     return ops
 
 
@@ -480,7 +545,8 @@ def compare(ctx, case, out, mouts):
             u = out["upper"] if case["only_upper"] else list(range(len(M)))
             sub = np.asarray(M, dtype=float)[np.ix_(u, u)] if u else np.zeros((0, 0))
             if sub.shape == out["H"].shape and np.any(sub != out["H"]):
-                ctx.nt(("synth", hash(np.asarray(M, dtype=float).tobytes()), case["only_upper"]))
+                ctx.nt(("synth", hashlib.md5(out["P"].tobytes() + np.asarray(M, dtype=float).tobytes()).hexdigest(),
+                        case["only_upper"]))
         return
     # grid / custom ------------------------------------------------------------------------------------------------
     pos = 0
@@ -523,9 +589,15 @@ def compare(ctx, case, out, mouts):
         if md is None or not core.close(d, md, rel=4e-16, abs_=0):
             ctx.corr("quat_distance/sign_fold", case, {"pair": [a, b], "theta": th, "value": d}, m)
         ctx.branch("angle_obtuse" if th > math.pi / 2 else "angle_acute")
-    for a, b, pts, val in out["area_in"]:
+    for a, b, pts, val, rank in out["area_in"]:
         m = mouts[pos]; pos += 1
         mv = core.unfbits(m["ok"]) if "ok" in m else None
+        if isinstance(val, dict):
+            # the implementation raised on this pair of cells: the Float model must raise the same error
+            if m.get("err") != val["err"]:
+                ctx.corr("face_area/float_model_outcome", case, {"cells": [a, b], "n_vertices": len(pts), "raised": val["err"]}, m)
+            ctx.branch("face_area_modelled_error_" + val["err"])
+            continue
         # one flipped 7-decimal rounding of a cosine moves an angle by 1e-7 / sin(angle)
         if mv is None or not abs(mv - val) <= AREA_MODEL_TOL:
             ctx.corr("face_area/float_model", case, {"cells": [a, b], "n_vertices": len(pts), "area": val},
@@ -534,6 +606,13 @@ def compare(ctx, case, out, mouts):
             ctx.extra_cov["face_area_float_model_max_abs_dev"] = max(ctx.extra_cov.get("face_area_float_model_max_abs_dev", 0.0),
                                                                     abs(mv - val))
         ctx.branch(f"face_area_modelled_{min(len(pts), 7)}{'+' if len(pts) >= 7 else ''}_vertices")
+    if out["N"] <= HYP_MODEL_MAX_N and not isinstance(out["full"]["adjacency"], dict):
+        m = mouts[pos]; pos += 1
+        # the hypotheses of half_matrix_symm / fold_diag_empty decided by the model's own (proved sound) validators
+        if m.get("ok") != {k: True for k in ("cover", "sep", "hup", "square", "sym", "anti", "diag")}:
+            ctx.corr("hypothesis/model_validators", case, "grid and full-sphere adjacency of the implementation", m)
+        else:
+            ctx.branch("hypotheses_validated_by_model")
     validate_hypotheses(ctx, case, out)
 
 
@@ -665,6 +744,10 @@ def _face(P, a, b, want_area):
         mask[[a, b]] = False
         S = np.argsort(-(P[mask] @ mid))[:SUBSET]
     S = set(int(x) for x in S)
+    # prefilter: a cone with interior (and >= 3 generic constraints) has extreme rays; the relaxed cone of the working set
+    # contains the true one, so no extreme ray at all means no common face (the LP is skipped)
+    if _cone_vertices(C[sorted(S)]) is None:
+        return 0.0, None
     t = None
     for _ in range(12):
         idx = sorted(S)
@@ -707,21 +790,27 @@ def _margin_point(C):
     return float(-res.fun), np.array(res.x[:3])
 
 
+_TRIU = {}
+
+
 def _cone_vertices(C, tol=1e-9):
+    """extreme rays of {y : C y >= 0}: all pairwise intersections of the constraint planes (both signs) that satisfy every
+    constraint; duplicates (several planes through one ray) merged"""
     m = len(C)
-    verts = []
-    for r in range(m - 1):
-        cr = np.cross(C[r], C[r + 1:])
-        nn = np.linalg.norm(cr, axis=1)
-        ok = nn > 1e-10
-        cand = cr[ok] / nn[ok][:, None]
-        for sgn in (1.0, -1.0):
-            V = sgn * cand
-            good = np.all(V @ C.T >= -tol, axis=1)
-            verts.extend(V[good])
+    if m < 2:
+        return None
+    if m not in _TRIU:
+        _TRIU[m] = np.triu_indices(m, 1)
+    r, c = _TRIU[m]
+    cr = np.cross(C[r], C[c])
+    nn = np.linalg.norm(cr, axis=1)
+    ok = nn > 1e-10
+    cand = cr[ok] / nn[ok][:, None]
+    V = np.vstack([cand, -cand])
+    V = V[np.all(V @ C.T >= -tol, axis=1)]
     U = []
-    for v in verts:
-        if not any(np.linalg.norm(v - u) < 1e-7 for u in U):
+    for v in V:
+        if not U or np.min(np.linalg.norm(np.array(U) - v, axis=1)) >= 1e-7:
             U.append(v)
     return U if len(U) >= 2 else None
 
@@ -749,6 +838,10 @@ def geometry(P, N, out):
             i, j = sorted(rs.integers(0, N, size=2).tolist())
             if i != j:
                 keep.add((i, j))
+        diag = out.get("border_diag")
+        for a, b, _, _ in (diag["bad"] if diag else []):
+            if a % N != b % N:
+                keep.add((min(a % N, b % N), max(a % N, b % N)))
         pairs = sorted(keep)
     res = {}
     for i, j in pairs:
@@ -776,6 +869,40 @@ def _tag(case):
     return f"custom_{case.get('gen')}_{len(case['G'])}"
 
 
+KEY_TINY = "C04:F13_tiny_face_negative_area"
+KEY_RANK = "C04:F14_rank_assertion_at_machine_precision"
+TINY_AREA = 1e-5
+
+
+def _classify_border_failure(out):
+    """The border getter raised.  Returns {key: [pairs]} when every pair of cells on which `_calculate_borders` raises is
+    explained by one of the two known defects, judged from independent data, else None:
+      F13  AssertionError and the true common face (independent geometry) has spherical area < 1e-5: the Girard sum with
+           cosines rounded to 7 decimals comes out negative ("Area cannot be negative!")
+      F14  AssertionError, the common face is an ordinary one, the shared vertices span a 3-dimensional subspace up to 1e-11
+           (fourth singular value), and yet numpy's matrix_rank (tolerance max(M,N)*eps*s_max ~ 2e-15) reports 4"""
+    diag = out.get("border_diag")
+    if not diag or not diag["bad"] or out.get("rv") is None:
+        return None
+    keys = {}
+    for a, b, en, msg in diag["bad"]:
+        if en != "AssertionError":
+            return None
+        t, ar = _face(out["P"], a, b, True)
+        if t is None or t < T_ADJ or ar is None:
+            return None
+        shared = out["rv"][list(set(out["rr"][a]).intersection(set(out["rr"][b])))]
+        sing = np.linalg.svd(shared, compute_uv=False)
+        if 0 <= ar < TINY_AREA:
+            keys.setdefault(KEY_TINY, []).append((a, b))
+        elif (len(sing) >= 4 and sing[3] < 1e-11 * sing[0] and sing[2] > 1e-7 * sing[0]
+              and np.linalg.matrix_rank(shared) != 3):
+            keys.setdefault(KEY_RANK, []).append((a, b))
+        else:
+            return None
+    return keys
+
+
 def oracle(ctx, case, out):
     if case["kind"] == "synth":
         return oracle_synth(ctx, case, out)
@@ -785,8 +912,22 @@ def oracle(ctx, case, out):
     for sel in SELS:
         H = out["half"][sel]
         if isinstance(H, dict):
-            ctx.fail("C04:getter_raises", f"{GETTER[sel]} raised {H['err']} on a rotation grid with {N} >= 4 points", case)
-            return
+            known = _classify_border_failure(out) if sel == "border_len" else None
+            if known:
+                for key, prs in known.items():
+                    why = ("the Girard sum (cosines rounded to 7 decimals) of a tiny common face is negative ('Area cannot be "
+                           "negative!')" if key == KEY_TINY else
+                           "np.linalg.matrix_rank of the shared vertices of an ordinary face is 4 at machine precision "
+                           "(fourth singular value ~1e-15 above numpy's default tolerance)")
+                    ctx.fail(key, f"{tag}: get_cell_borders raised {H['err']}: {why}; cells {prs[:4]} of the full-sphere "
+                             "diagram; the border matrix of this grid cannot be computed", case,
+                             "a border matrix", {"raised": H["err"], "pairs": prs[:8]})
+                ctx.branch("border_getter_raised_known_defect")
+                continue
+            ctx.fail("C04:getter_raises", f"{tag}: {GETTER[sel]} raised {H['err']} on a rotation grid with {N} >= 4 points", case)
+            if sel == "adjacency":
+                return
+            continue
         H = np.asarray(H, dtype=float)
         if H.shape != (N, N):
             ctx.fail("C04:shape", f"{GETTER[sel]} has shape {list(H.shape)}, expected {[N, N]} (one row per rotation)", case)
@@ -795,7 +936,12 @@ def oracle(ctx, case, out):
             ctx.fail("C04:nan", f"{GETTER[sel]} contains NaN", case)
             return
         mats[sel] = H
-    A, Bm, D = mats["adjacency"], mats["border_len"], mats["center_distances"]
+    if "adjacency" not in mats:
+        return
+    have_b, have_d = "border_len" in mats, "center_distances" in mats
+    A = mats["adjacency"]
+    Bm = mats.get("border_len", np.zeros((N, N)))
+    D = mats.get("center_distances", np.zeros((N, N)))
     pat = A != 0
     # symmetric
     asym = np.argwhere(pat != pat.T)
@@ -815,6 +961,8 @@ def oracle(ctx, case, out):
             ctx.fail("C04:diagonal", f"{sel}: non-zero diagonal entry at {int(np.nonzero(np.diag(M))[0][0])}", case)
     # one sparsity pattern
     for sel in ("border_len", "center_distances"):
+        if sel not in mats:
+            continue
         dif = np.argwhere((mats[sel] != 0) != pat)
         if len(dif):
             i, j = map(int, dif[0])
@@ -839,14 +987,16 @@ def oracle(ctx, case, out):
         else:
             if exp:
                 for (x, y) in ((i, j), (j, i)):
-                    if abs(D[x, y] - d) > DIST_TOL:
+                    if have_d and abs(D[x, y] - d) > DIST_TOL:
                         ctx.fail("C04:distance_wrong", f"{tag}: distance ({x},{y}) = {D[x, y]!r}, angle minimised over sign = {d!r}",
                                  case, d, float(D[x, y]))
                         break
                 if f1 != f2:
                     ar = a1 if f1 else a2
                     only_anti += (not f1)
-                    if ar is not None:
+                    if i == 0 and not f1:
+                        ctx.branch("pairs_with_index_0_adjacent_only_through_antipode")
+                    if ar is not None and have_b:
                         for (x, y) in ((i, j), (j, i)):
                             if abs(Bm[x, y] - ar) > AREA_TOL:
                                 ctx.fail("C04:border_wrong",
@@ -856,7 +1006,7 @@ def oracle(ctx, case, out):
                                 break
                 else:
                     both += 1
-                    if a1 is not None and a2 is not None:
+                    if a1 is not None and a2 is not None and have_b:
                         for (x, y) in ((i, j), (j, i)):
                             if min(abs(Bm[x, y] - a1), abs(Bm[x, y] - a2)) > AREA_TOL:
                                 ctx.fail("C04:border_wrong_two_faces",
@@ -875,7 +1025,7 @@ def oracle(ctx, case, out):
     ctx.branch("pairs_ambiguous_excluded", amb)
     ctx.branch(f"{case['kind']}_N{'<=12' if N <= 12 else '<=60' if N <= 60 else '>60'}")
     if only_anti:
-        ctx.nt((tag, hash(out["P"].tobytes())))
+        ctx.nt((tag, hashlib.md5(out["P"].tobytes()).hexdigest()))
     if case["kind"] == "grid" and case["N"] in (8, 17) or (case["kind"] == "custom" and len(case.get("G", [])) == 5):
         ctx.sample({k: v for k, v in case.items() if k != "G"} | ({"G[0]": case["G"][0]} if "G" in case else {}))
 
